@@ -114,7 +114,7 @@ def _one_impl(sc, idx: int, seed: int, with_ref: bool):
         runs.append(("keyset", ks, reg))
     for name, key, rg in runs:
         try:
-            o = jwe.decrypt_compact(tok, key, registry=rg, **kw) if ser == "compact" else jwe.decrypt_json(tok, key, registry=rg, **kw)
+            o = jwe.decrypt_compact(J.F(tok), key, registry=rg, **kw) if ser == "compact" else jwe.decrypt_json(tok, key, registry=rg, **kw)
         except Exception as e:  # noqa
             fails.append((f"decrypt-raised:{type(e).__name__}", name + " " + str(e)[:80])); continue
         if o.plaintext != pt:
